@@ -141,6 +141,17 @@ def run(module, cfg=None, env=None, workers=1, coverage=False, simulate=None, de
     return res
 
 
+def _no_null(v):
+    """TLC's Json module cannot read null: encode None as the string "null" (records only carry it inside `case`)"""
+    if v is None:
+        return "null"
+    if isinstance(v, dict):
+        return {str(k): _no_null(x) for k, x in v.items()}
+    if isinstance(v, (list, tuple)):
+        return [_no_null(x) for x in v]
+    return v
+
+
 def write_json(path, value):
     with open(path, "w") as f:
-        json.dump(value, f, separators=(",", ":"))
+        json.dump(_no_null(value), f, separators=(",", ":"))
